@@ -6,6 +6,9 @@ import struct
 
 from checks import common
 
+# this check never reads lean/MjProof/Gen: no generated-code lock needed
+USES_GEN = False
+
 META = {
     "technique": "Lean 4 proof over an arbitrary linearly ordered field (interpolation bracket lemmas, scatter/gather "
                  "extensionality for the grouped resampling) + differential correspondence of the executable model "
